@@ -106,6 +106,13 @@ class State:
         self._claimed.add(what)
         return True
 
+    def name_in_use(self, name):
+        for sec in self.sections:
+            for x in sec["stmts"]:
+                if x["kind"] in ("field", "const") and x["text"].split("=")[0].split()[-1] == name:
+                    return True
+        return False
+
     def add(self, label, ok):
         self.labels.append(label + (":ok" if ok else ":bad"))
         if not ok:
@@ -179,7 +186,7 @@ def m_attr_name(st):
         name, ok = randcase(rng, rng.choice(RESERVED)), False
     else:
         name, ok = randcase(rng, rng.choice(NEAR_MISSES)), True
-    if any(name == s["text"].split()[-1] for sec in st.sections for s in sec["stmts"]):
+    if st.name_in_use(name):
         return
     st.insert(si, {"text": "uint8 %s" % name, "type": ("uint", 8, "sat"), "kind": "field"})
     st.add("attr-name-%s" % name.lower(), ok)
@@ -192,6 +199,8 @@ def m_const_name(st):
         name, ok = randcase(rng, rng.choice(RESERVED)), False
     else:
         name, ok = randcase(rng, rng.choice(NEAR_MISSES)).upper() + "_K", True
+    if st.name_in_use(name):
+        return
     st.insert(si, {"text": "uint8 %s = 1" % name, "type": None, "kind": "const"})
     st.add("const-name-%s" % name.lower(), ok)
 
@@ -312,6 +321,10 @@ def m_extent(st):
     st.add("extent-max%+d" % delta, ok)
 
 
+def has_attr(sec):
+    return any(x["kind"] in ("field", "pad", "const") for x in sec["stmts"])
+
+
 def m_directive(st):
     rng = st.rng
     si = rng.randrange(len(st.sections))
@@ -326,7 +339,7 @@ def m_directive(st):
             return
         sec["pre_extra"].append("@union")
     elif which == "union-after-attribute":
-        if not sec["stmts"]:
+        if not has_attr(sec):
             return
         sec["post_extra"].append("@union")
     elif which == "deprecated-twice":
@@ -334,7 +347,7 @@ def m_directive(st):
             return
         sec["pre_extra"].append("@deprecated")
     elif which == "deprecated-after-attribute":
-        if si != 0 or st.deprecated or not sec["stmts"]:
+        if si != 0 or st.deprecated or not has_attr(sec):
             return
         sec["post_extra"].append("@deprecated")
     elif which == "deprecated-in-response":
@@ -426,9 +439,12 @@ def render_main(st):
         lines += pre
         stmts = [s["text"] for s in sec["stmts"]]
         if mode == "extent-before-attribute":
-            stmts.insert(max(0, len(stmts) - 1), "@extent %d" % (mx + 800))
-            if len(stmts) == 1:
-                stmts.append("uint8 late_attribute")
+            # the extent directive must be followed by an *attribute* statement (a directive after it is legal)
+            attr_pos = [i for i, s in enumerate(sec["stmts"]) if s["kind"] in ("field", "pad", "const")]
+            if attr_pos:
+                stmts.insert(attr_pos[-1], "@extent %d" % (mx + 800))
+            else:
+                stmts = ["@extent %d" % (mx + 800)] + stmts + ["uint8 late_attribute"]
         lines += stmts
         lines += sec["post_extra"]
         if mode is None:
